@@ -66,7 +66,7 @@ def random_comment(rng):
     body = "".join(rng.choice(COMMENT_CHARS) for _ in range(rng.randint(0, 8)))
     k = rng.random()
     if k < 0.55:
-        return " //" + body + "\n"
+        return " //" + body + rng.choice(["\n", "\n", "\r\n", "\r"])      # every documented line end, the lone CR included
     body = body.replace("*/", "* /")
     if rng.random() < 0.5:
         body = body + rng.choice(["\n", "\r\n", "\t"]) + body[::-1].replace("/*", "/ *").replace("*/", "* /")
@@ -78,7 +78,7 @@ def relayout(rng, toks):
     out = []
     for i, t in enumerate(toks):
         out.append(t)
-        sep = rng.choice([" ", "  ", "\n", "\t", "\r\n", " /* c */ ", " // c\n", "\n\n", " /**/ ", "/* * **/", None, None, None])
+        sep = rng.choice([" ", "  ", "\n", "\t", "\r\n", "\r", " /* c */ ", " // c\n", " // c\r", "\n\n", " /**/ ", "/* * **/", None, None, None])
         if sep is None:
             sep = random_comment(rng)
         out.append(sep)
